@@ -432,6 +432,8 @@ class Verifier:
         inputs_repr = None
         while True:
             eng.reset_path(schedule)
+            if c.setup:
+                c.setup(eng)          # stubs and ghost state are (re)initialised on every path
             eng.witness = {}
             eng.module_value_cache = {}
             E._fresh_counter = E.itertools.count()   # deterministic names per path
